@@ -119,7 +119,7 @@ func buildRebZ(third int, curK int, second int, zeroV int) *rebState {
 		}
 		asset := types.AllianceAsset{Denom: Denoms[a], RewardWeight: w,
 			RewardWeightRange: types.RewardWeightRange{Min: math.LegacyZeroDec(), Max: math.LegacyNewDec(10)},
-			TakeRate: math.LegacyZeroDec(), TotalTokens: math.NewInt(1000000), TotalValidatorShares: tvs,
+			TakeRate:          math.LegacyZeroDec(), TotalTokens: math.NewInt(1000000), TotalValidatorShares: tvs,
 			RewardStartTime: start, RewardChangeRate: math.LegacyOneDec(), LastRewardChangeTime: start, IsInitialized: started}
 		_ = e.K.SetAsset(e.Ctx, asset)
 		s.Weights = append(s.Weights, w)
@@ -282,9 +282,23 @@ func H_C10_trigger() {
 func H_C10_consume() {
 	id := "C10.consume"
 	second := nd.Choice("second", 3)
+	decay := nd.Choice("decay", 2) == 1
 	s := buildReb(0, 1, second)
 	e := s.E
 	_ = e.K.QueueAssetRebalanceEvent(e.Ctx)
+	if decay {
+		// a scheduled reward-weight decay of asset 0 fires in this very block: the rebalance at the end of
+		// the block must already use the NEW weight
+		a0, _ := e.K.GetAssetByDenom(e.Ctx, Denoms[0])
+		a0.RewardChangeRate = math.LegacyNewDecWithPrec(5, 1)
+		a0.RewardChangeInterval = time.Hour
+		a0.LastRewardChangeTime = s.T0.Add(-time.Hour)
+		a0.RewardWeightRange = types.RewardWeightRange{Min: math.LegacyZeroDec(), Max: math.LegacyNewDec(10)}
+		_ = e.K.SetAsset(e.Ctx, a0)
+		if s.Started[0] {
+			s.Weights[0] = s.Weights[0].Mul(a0.RewardChangeRate)
+		}
+	}
 	var err error
 	nd.Reach(id)
 	if !NoPanic(id, func() { err = endBlock(e) }) {
